@@ -127,8 +127,6 @@ def struct_universe(quick):
     k = 0
     for n in (1, 2, 3):
         for combo in itertools.product(range(len(FIELD_TYPES)), repeat=n):
-            if quick and n == 3 and (combo[0] * 64 + combo[1] * 8 + combo[2]) % 7 != 0:
-                continue
             k += 1
             structs.append(Struct(f"Q{k}", [("abc"[i], FIELD_TYPES[c]) for i, c in enumerate(combo)]))
     # bigger ones: every size up to 64 through byte arrays, and 4/5-field mixes
@@ -152,6 +150,10 @@ def signatures(quick):
     sigs = []
     alltypes = SCALARS + structs
     for T in alltypes:
+        if quick and isinstance(T, Struct) and T.name.startswith("Q") and len(T.fields) == 3:
+            # quick: one identity signature per 3-field struct (argument and result classification in one call)
+            sigs.append(Sig(f"id/{T.spell()}", [T], T))
+            continue
         sigs.append(Sig(f"param/{T.spell()}", [T], None))
         sigs.append(Sig(f"ret/{T.spell()}", [], T))
         sigs.append(Sig(f"id/{T.spell()}", [T], T))
